@@ -9,7 +9,7 @@ PLANS = {
     "C11": [("S2", 5, 3000, None), ("S2", 6, 0, 30000), ("S5", 0, 1500, None), ("S1", 0, 500, 5000)],
     "C12": [("S1", 0, 3000, 60000), ("S2", 5, 1500, None), ("S3", 0, 800, 8000), ("S5", 0, 500, 4000), ("S9", 0, None, None)],
     "C13": [("S5", 0, 3000, None), ("S2", 5, 1500, None), ("S1", 0, 500, 5000)],
-    "C14": [("S3", 0, 3500, None), ("S1", 0, 500, 5000), ("S2", 5, 500, 3000), ("S9", 0, 300, None)],
+    "C14": [("S3", 0, 3500, None), ("S1", 0, 500, 5000), ("S2", 5, 500, 3000), ("S9", 0, 300, None), ("S3c", 0, None, None)],
 }
 
 TEXT = {
